@@ -1,4 +1,7 @@
 import TorchDataVerif.Proofs.RefinePFObs
+import TorchDataVerif.Proofs.RefinePMObs
+import TorchDataVerif.Proofs.RefinePMSeq
+import TorchDataVerif.Proofs.RefinePFTransfer
 /-!
 # The link between the two levels: the thread protocols refine the sequential `buffered`
 
@@ -102,5 +105,220 @@ theorem pf_resume_refines (pf sf : Nat) (l : List Nat) (j k : Nat) (hjk : j + k 
     · have htk : ((obs.take k).map Res.op).length = k := by simp [List.length_take]; omega
       rw [htk, Nat.zero_add] at h2
       rw [h2, seq_list_resume _ _ _ _ _ (by simpa using hjk), List.map_drop]
+
+/-- non-vacuity: the generation created by `reset((2, 1))` (the checkpoint `exObs` ends with): the reader pulls the last
+item and the end marker and exits before the constructor's single fast-forward call; then `get_state()`, `next()` (raises
+StopIteration), `get_state()`. -/
+def exEvsResume : List Ev :=
+  [.act .rInit, .act .cBoot, .act .rIsSet, .act .rAcq, .act .rEnter, .act .rLeave, .act .rPut,
+   .act .rIsSet, .act .rAcq, .act .rEnter, .act .rLeave, .act .rPut, .act .rExit,
+   .act .cCall, .act .cIsSet, .act .cGet, .act .cRel, .act .cPop, .getState,
+   .act .cCall, .act .cIsSet, .act .cGet, .act .cRel, .act .cSet, .getState]
+
+example : (pfRunObs 2 2 [7, 8, 9] 2 exEvsResume).map Prod.snd = some [.item 9, .state 2 1, .stop, .state 2 1] := by
+  decide
+
+example : seqRun (buffered 2 (listSource ([7, 8, 9].map Item.atom)))
+    ((buffered 2 (listSource ([7, 8, 9].map Item.atom))).rreset (Node.rfresh _) (some ((2, 1) : Nat × Nat))) [.get, .next, .get] =
+    [Res.state 2 1, Res.stop, Res.state 2 1].map Res.toS := rfl
+
+/-! ## ParallelMapper (in order, thread workers, total `map_fn`) refines `buffered sf (mapper f src)` -/
+
+/-- **ParallelMapper refines `buffered ∘ mapper`** (generation started by `reset(None)`).  For every number of workers,
+every `max_concurrent`, every snapshot frequency, every source list, every total `map_fn` `f`, every sequence of events
+from the start of the generation — every interleaving of reader, worker, sorter steps, consumer micro-steps, timeouts,
+`next()` and `get_state()` calls — the results of the consumer operations that have returned are the results of the same
+operations on `buffered sf (mapper f (listSource l))` (the composition `Drv/Nodes.lean` uses for "pmap") after
+`reset(None)`. -/
+theorem pm_refines_buffered_mapper (N max sf : Nat) (l : List Nat) (f : Nat → Nat) (evs : List MEv) (s : PM.State)
+    (obs : List Res) (R : Run (pmNode sf f (l.map Item.atom)))
+    (h : pmRunObs N max sf l f 0 evs = some (s, obs)) :
+    obs.map Res.toS =
+      seqRun (pmNode sf f (l.map Item.atom)) ((pmNode sf f (l.map Item.atom)).rreset R none) (obs.map Res.op) := by
+  rw [seq_map_fresh, pmRunObs_spec h, List.drop_zero, map_liftF]
+
+/-- non-vacuity.  `ParallelMapper(IterableWrapper([5,7]), x ↦ x+1, num_workers=2, max_concurrent=2, snapshot_frequency=1)`
+on the run `PM.trE` (both items are pulled, mapped — the second overtakes the first at the sorter — and sorted before the
+consumer's first call), with `get_state()` before every `next()` and two calls after the end. -/
+def exMEvs : List MEv :=
+  (PM.trE.take 29).map .act ++ [.getState] ++ ((PM.trE.drop 29).take 7).map .act ++ [.getState] ++
+  ((PM.trE.drop 36).take 7).map .act ++ [.getState] ++ (PM.trE.drop 43).map .act ++
+  [.getState, .act .cCall, .act .cIsSet, .getState]
+
+def exMObs : List Res :=
+  [.state 0 0, .item 6, .state 1 0, .item 8, .state 2 0, .stop, .state 2 0, .stop, .state 2 0]
+
+example : (pmRunObs 2 2 1 [5, 7] (· + 1) 0 exMEvs).map Prod.snd = some exMObs := by decide
+
+/-- read-ahead: after the first 29 events both results wait in the sorter's queue and nothing is delivered -/
+example : (pmRunObs 2 2 1 [5, 7] (· + 1) 0 (exMEvs.take 29)).map (fun p => (p.1.sq.length, p.1.outs, p.2)) =
+    some (2, [], []) := by decide
+
+example : seqRun (pmNode 1 (· + 1) ([5, 7].map Item.atom))
+    ((pmNode 1 (· + 1) ([5, 7].map Item.atom)).rreset (Node.rfresh _) none) (exMObs.map Res.op) =
+    exMObs.map Res.toS := rfl
+
+/-- **A ParallelMapper generation created by `reset((j, k))`**: as `pf_resume_refines`. -/
+theorem pm_resume_refines (N max sf : Nat) (l : List Nat) (f : Nat → Nat) (j k : Nat) (hjk : j + k ≤ l.length)
+    (evs : List MEv) (s : PM.State) (obs : List Res) (R : Run (pmNode sf f (l.map Item.atom)))
+    (h : pmRunObs N max sf l f j evs = some (s, obs))
+    (hff : ∀ x ∈ obs.take k, x.op = .next) :
+    (∀ x ∈ obs.take k, ∃ v, x = .item v) ∧
+    (obs.drop k).map Res.toS =
+      seqRun (pmNode sf f (l.map Item.atom)) ((pmNode sf f (l.map Item.atom)).rreset R (some (j, k)))
+        ((obs.drop k).map Res.op) := by
+  have hs := pmRunObs_spec h
+  rw [← List.take_append_drop k obs, List.map_append, List.map_append] at hs
+  have hall : ∀ o ∈ (obs.take k).map Res.op, o = Op.next := by
+    intro o ho
+    obtain ⟨x, hx, rfl⟩ := List.mem_map.mp ho
+    exact hff x hx
+  rw [spec_append_nexts _ _ _ _ _ _ hall] at hs
+  have hlen : ((obs.take k).map Res.toS).length =
+      (spec sf j (((l.drop j).map f).map Item.atom) 0 ((obs.take k).map Res.op)).length := by
+    rw [spec_length]; simp
+  obtain ⟨h1, h2⟩ := List.append_inj hs hlen
+  constructor
+  · intro x hx
+    have hm : x.toS ∈ spec sf j (((l.drop j).map f).map Item.atom) 0 ((obs.take k).map Res.op) := by
+      rw [← h1]; exact List.mem_map_of_mem hx
+    obtain ⟨i, _, hi, he⟩ := spec_nexts_mem _ _ _ _ _ hall _ hm
+    have hk : i < (((l.drop j).map f).map Item.atom).length := by
+      have : ((obs.take k).map Res.op).length ≤ k := by simp [List.length_take]; omega
+      simp only [List.length_map, List.length_drop]; omega
+    rw [nextOut_lt hk] at he
+    cases x <;> simp [Res.toS] at he
+    exact ⟨_, rfl⟩
+  · by_cases hlk : obs.length ≤ k
+    · rw [List.drop_eq_nil_of_le hlk]; rfl
+    · have htk : ((obs.take k).map Res.op).length = k := by simp [List.length_take]; omega
+      rw [htk, Nat.zero_add] at h2
+      rw [h2, seq_map_resume _ _ _ _ _ _ (by simpa using hjk), ← List.map_drop, map_liftF]
+
+/-! ## Transfer: theorems about `buffered` hold of the consumer-visible behaviour of the protocols -/
+
+/-- Every checkpoint `get_state()` can return in a generation started at position `j0 ≤ |l|` is in range:
+`j0 ≤ j` and `j + k ≤ |l|` — the precondition of `pf_resume_refines`. -/
+theorem pf_checkpoint_in_range (pf sf : Nat) (l : List Nat) (j0 : Nat) (hj0 : j0 ≤ l.length) (evs : List Ev)
+    (s : PF.State) (obs : List Res) (h : pfRunObs pf sf l j0 evs = some (s, obs)) (j k : Nat)
+    (hm : Res.state j k ∈ obs) : j0 ≤ j ∧ j + k ≤ l.length := by
+  have hs := pfRunObs_spec h
+  have hm' : SRes.state (j, k) ∈ obs.map Res.toS := List.mem_map.mpr ⟨_, hm, rfl⟩
+  rw [hs] at hm'
+  obtain ⟨m, hm1, rfl, rfl⟩ := spec_state_mem _ _ _ _ _ _ _ hm'
+  have := PF.jstar_le sf m
+  simp only [List.length_map, List.length_drop] at hm1
+  omega
+
+/-- the same for a ParallelMapper generation -/
+theorem pm_checkpoint_in_range (N max sf : Nat) (l : List Nat) (f : Nat → Nat) (j0 : Nat) (hj0 : j0 ≤ l.length)
+    (evs : List MEv) (s : PM.State) (obs : List Res) (h : pmRunObs N max sf l f j0 evs = some (s, obs)) (j k : Nat)
+    (hm : Res.state j k ∈ obs) : j0 ≤ j ∧ j + k ≤ l.length := by
+  have hs := pmRunObs_spec h
+  have hm' : SRes.state (j, k) ∈ obs.map Res.toS := List.mem_map.mpr ⟨_, hm, rfl⟩
+  rw [hs] at hm'
+  obtain ⟨m, hm1, rfl, rfl⟩ := spec_state_mem _ _ _ _ _ _ _ hm'
+  have := PF.jstar_le sf m
+  simp only [List.length_map, List.length_drop] at hm1
+  omega
+
+/-- **`threaded_pipeline_sound`** — the glue between the two levels, as a theorem.  Whatever holds of the results of
+every sequence of consumer operations on the sequential `buffered sf (listSource l)` after `reset(None)` (any property
+`P` of operations and results: C02, C04, C06 statements about `buffered` are of this form) holds of the consumer-visible
+behaviour of every run of the Prefetcher protocol, under every interleaving. -/
+theorem threaded_pipeline_sound (pf sf : Nat) (l : List Nat)
+    (R : Run (buffered sf (listSource (l.map Item.atom))))
+    (P : List Op → List (SRes (Nat × Nat)) → Prop)
+    (hP : ∀ ops, P ops (seqRun (buffered sf (listSource (l.map Item.atom)))
+      ((buffered sf (listSource (l.map Item.atom))).rreset R none) ops))
+    (evs : List Ev) (s : PF.State) (obs : List Res) (h : pfRunObs pf sf l 0 evs = some (s, obs)) :
+    P (obs.map Res.op) (obs.map Res.toS) := by
+  rw [pf_refines_buffered pf sf l evs s obs R h]; exact hP _
+
+/-- the same for the ParallelMapper protocol (in order, thread workers, total `map_fn`) -/
+theorem threaded_pipeline_sound_pm (N max sf : Nat) (l : List Nat) (f : Nat → Nat)
+    (R : Run (pmNode sf f (l.map Item.atom)))
+    (P : List Op → List (SRes (Nat × Nat)) → Prop)
+    (hP : ∀ ops, P ops (seqRun (pmNode sf f (l.map Item.atom)) ((pmNode sf f (l.map Item.atom)).rreset R none) ops))
+    (evs : List MEv) (s : PM.State) (obs : List Res) (h : pmRunObs N max sf l f 0 evs = some (s, obs)) :
+    P (obs.map Res.op) (obs.map Res.toS) := by
+  rw [pm_refines_buffered_mapper N max sf l f evs s obs R h]; exact hP _
+
+/-- **A concrete transfer (C02 + C04 → the real protocol).**  A Prefetcher generation started by `reset(None)` delivers
+the items `its1`, then `get_state()` returns `(j, k)`; a second Prefetcher generation (any prefetch factor) is created
+by `reset((j, k))`: its constructor fast-forwards `k` calls (`ff`), then it delivers `its2` and raises StopIteration.
+Then `its1 ++ its2` is exactly the source list — under every interleaving of both runs.  Proof: both runs are read as
+runs of `buffered` (`pf_refines_buffered`, `pf_resume_refines`), where the statement is `buffered_list_resume_exact`,
+i.e. `buffered_lawful_partial` (Props/C02) + `buffered_denote` (Props/C04). -/
+theorem pf_checkpoint_resume_exact (pf1 pf2 sf : Nat) (l its1 its2 : List Nat) (j k : Nat)
+    (evs1 evs2 : List Ev) (s1 s2 : PF.State) (ff : List Res)
+    (h1 : pfRunObs pf1 sf l 0 evs1 = some (s1, its1.map Res.item ++ [.state j k]))
+    (h2 : pfRunObs pf2 sf l j evs2 = some (s2, ff ++ (its2.map Res.item ++ [.stop])))
+    (hff : ff.length = k) (hffn : ∀ x ∈ ff, x.op = .next) :
+    its1 ++ its2 = l := by
+  have hR : (buffered sf (listSource (l.map Item.atom))).Reach
+      ((buffered sf (listSource (l.map Item.atom))).rreset (Node.rfresh _) none) := Node.Reach.initNone
+  generalize (buffered sf (listSource (l.map Item.atom))).rreset (Node.rfresh _) none = R at hR
+  -- first generation, read on `buffered`
+  have e1 := pf_refines_buffered pf1 sf l evs1 s1 _ R h1
+  rw [List.map_append, List.map_append, op_items, toS_items, seqRun_append, seqRun_nexts, seqAfter_nexts] at e1
+  obtain ⟨e1a, e1b⟩ := List.append_inj' e1 rfl
+  have ho1 := (out_map_inj e1a).symm
+  have htok : ((buffered sf (listSource (l.map Item.atom))).rget
+      ((buffered sf (listSource (l.map Item.atom))).after its1.length
+        ((buffered sf (listSource (l.map Item.atom))).rreset R none))).1 = (j, k) := by
+    have e1b' : [SRes.state (j, k)] = [SRes.state ((buffered sf (listSource (l.map Item.atom))).rget
+      ((buffered sf (listSource (l.map Item.atom))).after its1.length
+        ((buffered sf (listSource (l.map Item.atom))).rreset R none))).1] := e1b
+    exact (SRes.state.inj (List.cons.inj e1b').1).symm
+  -- the checkpoint is in range
+  have hjk := (pf_checkpoint_in_range pf1 sf l 0 (Nat.zero_le _) evs1 s1 _ h1 j k (by simp)).2
+  -- second generation, read on `buffered`
+  have htake : (ff ++ (its2.map Res.item ++ [Res.stop])).take k = ff := by
+    rw [← hff]; simp
+  have hdrop : (ff ++ (its2.map Res.item ++ [Res.stop])).drop k = its2.map Res.item ++ [Res.stop] := by
+    rw [← hff]; simp
+  have e2 := (pf_resume_refines pf2 sf l j k hjk evs2 s2 _ R h2 (by rw [htake]; exact hffn)).2
+  rw [hdrop, List.map_append, List.map_append, op_items, toS_items] at e2
+  have hops : List.replicate its2.length Op.next ++ List.map Res.op [Res.stop] =
+      List.replicate (its2.length + 1) Op.next := by
+    rw [List.replicate_succ']; rfl
+  rw [hops, seqRun_nexts] at e2
+  have ho2 : (buffered sf (listSource (l.map Item.atom))).outs (its2.length + 1)
+      ((buffered sf (listSource (l.map Item.atom))).rreset R (some (j, k))) =
+      (its2.map Item.atom).map Out.item ++ [Out.stop] :=
+    out_map_inj (e2.symm.trans (by rw [List.map_append]; rfl))
+  have ho2' : (buffered sf (listSource (l.map Item.atom))).outs (its2.length + 1)
+      ((buffered sf (listSource (l.map Item.atom))).rreset R
+        (some ((buffered sf (listSource (l.map Item.atom))).rget
+          ((buffered sf (listSource (l.map Item.atom))).after its1.length
+            ((buffered sf (listSource (l.map Item.atom))).rreset R none))).1)) =
+      (its2.map Item.atom).map Out.item ++ [Out.stop] := by
+    rw [htok]; exact ho2
+  have := buffered_list_resume_exact sf (l.map Item.atom) R R hR hR its1.length its2.length
+    (its1.map Item.atom) (its2.map Item.atom) ho1 ho2'
+  rw [← List.map_append] at this
+  exact atom_map_inj this
+
+/-- non-vacuity of `pf_checkpoint_resume_exact`: first generation = the reader two ahead, one `next()`, `get_state()`
+= (0, 1); second generation created by `reset((0, 1))` = the run `exEvs` without its `get_state()` calls and its last call:
+one fast-forward call (7), then 8, 9, StopIteration. -/
+def exEvs1 : List Ev := exEvs.take 15 ++ (exEvs.drop 16).take 6
+def exEvs2 : List Ev := ((exEvs.filter (fun e => e != .getState)).dropLast).dropLast
+
+example : (pfRunObs 2 2 [7, 8, 9] 0 exEvs1).map Prod.snd = some ([7].map Res.item ++ [.state 0 1]) ∧
+    (pfRunObs 2 2 [7, 8, 9] 0 exEvs2).map Prod.snd = some ([.item 7] ++ ([8, 9].map Res.item ++ [.stop])) := by
+  constructor <;> decide
+
+/-- non-vacuity of `threaded_pipeline_sound`: a property of `buffered` (the first operation, if it is `get_state()`,
+returns position 0 with 0 steps) transferred to every Prefetcher run -/
+example (pf sf : Nat) (l : List Nat) (evs : List Ev) (s : PF.State) (obs : List Res)
+    (h : pfRunObs pf sf l 0 evs = some (s, obs)) :
+    (obs.map Res.op).head? = some .get → (obs.map Res.toS).head? = some (.state (0, 0)) :=
+  threaded_pipeline_sound pf sf l (Node.rfresh _)
+    (fun ops rs => ops.head? = some .get → rs.head? = some (.state (0, 0)))
+    (by intro ops; cases ops with
+        | nil => intro h; cases h
+        | cons o ops => cases o <;> intro h <;> first | cases h; done | rfl) evs s obs h
 
 end TDV.Refine
